@@ -27,7 +27,7 @@ func C08(c *vk.Ctx) {
 			return
 		}
 		for _, a := range alphabet {
-			if quick && (a.sym == "P0" || a.sym == "Pw" || a.sym == "Pe" || a.sym == "F0") {
+			if quick && (a.sym == "P0" || a.sym == "Pw" || a.sym == "Pe" || a.sym == "F0" || a.sym == "Xd") {
 				continue // payload variants of packets already in the alphabet: thorough tier (C03 has them in both)
 			}
 			rec(append(pre, a))
